@@ -836,6 +836,23 @@ func streamCont(o *Out, r *rand.Rand, n int, thorough bool) {
 		{"t = make([]int64, 3)\nt[0] = 1\nt[1] = 2\nt[2] = 3\n[1.5 in t, 2 in t, 2.0 in t, nil in t, 4 in t]", "[]iface[bool:false bool:true bool:true bool:false bool:false]"},
 		{"ts = make([]string, 1)\nts[0] = \"A\"\n[65 in ts, \"A\" in ts, nil in ts]", "[]iface[bool:false bool:true bool:false]"},
 		{"tb = make([]bool, 1)\n[0 in tb, false in tb, nil in tb, \"\" in make([]string, 1)]", "SKIP"},
+		// a slice handed to a variadic script function with `...` IS the parameter (as f(s...) in Go): stores show on both sides
+		{"func f(b...) { b[0] = 9 }\na = [1, 2, 3]\nf(a...)\na", "[]iface[int64:9 int64:2 int64:3]"},
+		{"a = [1, 2, 3]\nfunc g() {\ndefer func(b...) { b[1] = 8 }(a...)\n}\ng()\na", "[]iface[int64:1 int64:8 int64:3]"},
+		{"keep = nil\nfunc h(b...) { keep = func() { return b[0] } }\na = [1, 2]\nh(a...)\na[0] = 7\nkeep()", "int64:7"},
+		{"func f(x, b...) { b[0] = x }\na = [1, 2]\nf(5, a...)\na", "[]iface[int64:5 int64:2]"},
+		// there is no conversion between T and *T: a pointer stored where the pointee type is declared (or the other way round) fails
+		// and leaves the old content
+		{"c = make([]int64, 1)\nx = 5\nr = \"stored\"\ntry {\nc[0] = &x\n} catch e {\nr = \"failed\"\n}\n[r, c[0]]", "[]iface[string:" + hexOf("failed") + " int64:0]"},
+		{"c = make([]int64, 1)\nx = 5\nr = \"stored\"\ntry {\nc += &x\n} catch e {\nr = \"failed\"\n}\n[r, len(c)]", "[]iface[string:" + hexOf("failed") + " int64:1]"},
+		{"c = make([]int64, 1)\nx = 5\nr = \"stored\"\ntry {\nc[1] = &x\n} catch e {\nr = \"failed\"\n}\n[r, len(c)]", "[]iface[string:" + hexOf("failed") + " int64:1]"},
+		{"m = make(map[string]int64)\nx = 5\nr = \"stored\"\ntry {\nm.k = &x\n} catch e {\nr = \"failed\"\n}\n[r, len(m)]", "[]iface[string:" + hexOf("failed") + " int64:0]"},
+		{"m = make(map[string]int64)\nx = 5\nr = \"stored\"\ntry {\nm[\"k\"] = &x\n} catch e {\nr = \"failed\"\n}\n[r, len(m)]", "[]iface[string:" + hexOf("failed") + " int64:0]"},
+		{"s = make(S)\nx = 5\nr = \"stored\"\ntry {\ns.A = &x\n} catch e {\nr = \"failed\"\n}\n[r, s.A]", "[]iface[string:" + hexOf("failed") + " int64:0]"},
+		{"p = make([]*int64, 1)\nr = \"stored\"\ntry {\np[0] = 5\n} catch e {\nr = \"failed\"\n}\n[r, p[0] == nil]", "[]iface[string:" + hexOf("failed") + " bool:true]"},
+		{"m = make(map[int64]string)\nm[5] = \"v\"\nx = 5\nr = \"stored\"\ntry {\nm[&x] = \"w\"\n} catch e {\nr = \"failed\"\n}\n[r, m[5], len(m)]", "[]iface[string:" + hexOf("failed") + " string:" + hexOf("v") + " int64:1]"},
+		{"m = make(map[int64]string)\nm[5] = \"v\"\nx = 5\nr = \"deleted\"\ntry {\ndelete(m, &x)\n} catch e {\nr = \"failed\"\n}\n[r, len(m)]", "[]iface[string:" + hexOf("failed") + " int64:1]"},
+		{"x = 5\nr = \"made\"\ntry {\nc = []int64{&x}\n} catch e {\nr = \"failed\"\n}\nr", "string:" + hexOf("failed")},
 		{"x = make(S)\ny = x\ny.A = 4\n[x.A, y.A]", "SKIP"},
 		{"x = make(S)\nx.Nope = 1", "ERROR"}, {"x = make(S)\nx.Nope", "ERROR"}, {"x = make(S)\nx.A = 3\nx.A", "int64:3"},
 		{"x = make(S)\nx.C = [1, 2]\nx.C[1]", "int64:2"}, {"x = make(S)\nx.D = {\"a\": 1}\nx.D.a", "int64:1"}, {"x = make(S)\nx.G = [1]\nx.G", "[]iface[int64:1]"},
